@@ -135,3 +135,25 @@ Proof.
   intros HP H10. destruct (glob_transform_force P f HP) as [A [B C]]. split; [exact A|].
   rewrite B, H10. cbn [negb]. apply andb_false_r.
 Qed.
+
+(* ---- pathlib: the platform rules are fixed by the path class (translated _translate_flags) ---- *)
+Ltac bsimp := rewrite ?andb_false_r, ?andb_true_r, ?orb_false_r, ?orb_true_r; cbn [andb orb negb].
+
+Lemma pathlib_posix_class P f : os_nt P = false ->
+  exists f', pathlib_translate_flags P false true f = Some f' /\
+             Z.testbit f' 17 = true /\ Z.testbit f' 16 = false /\ Z.testbit f' 5 = true.
+Proof.
+  intros HN. unfold pathlib_translate_flags. rewrite HN. bits. bsimp.
+  destruct (Z.testbit f 10); cbn [andb orb]; bits; bsimp;
+    (eexists; split; [reflexivity|]; repeat split; bits; bsimp; reflexivity).
+Qed.
+
+Lemma pathlib_windows_class P f : os_nt P = false ->
+  (Z.testbit f 10 = true -> pathlib_translate_flags P true false f = None) /\
+  (Z.testbit f 10 = false -> exists f', pathlib_translate_flags P true false f = Some f' /\
+                                        Z.testbit f' 16 = true /\ Z.testbit f' 17 = false /\ Z.testbit f' 5 = true).
+Proof.
+  intros HN. unfold pathlib_translate_flags. rewrite HN. bits. bsimp. split; intros H10; rewrite H10; cbn [andb orb]; bits; bsimp.
+  - reflexivity.
+  - eexists. split; [reflexivity|]. repeat split; bits; bsimp; reflexivity.
+Qed.
